@@ -149,6 +149,9 @@ func Menu(s *Schema, typeName string, level int) []*Sel {
 		if fd.Name == "pick" || fd.Name == "rev" || fd.Name == "tri" {
 			return // argument-heavy fields are exercised by dedicated documents
 		}
+		if fd.Name == "ghost" {
+			return // reflection has nothing to bind it to: only hand-written documents select it
+		}
 		if fd.Name == "vkids" {
 			return // struct values have no pointer-receiver methods: only hand-written documents select below it
 		}
